@@ -120,8 +120,9 @@ public:
 };
 
 json
-scanner_spec(int ndet, int rings, bool tilt, bool tof)
+scanner_spec(int ndet, int rings, bool tilt, int tof_bins /* Case field "tof": 1 = non-TOF, else the (odd) number of TOF bins */)
 {
+  const bool tof = tof_bins > 1;
   json sc;
   sc["type"] = -1;
   sc["ndet"] = ndet;
@@ -142,9 +143,11 @@ scanner_spec(int ndet, int rings, bool tilt, bool tof)
   if (tof)
     { // TOF sizes consistent with the FOV (Scanner::check_consistency)
       const double fov_d = 2. * vg::make_scanner(sc)->get_max_FOV_radius();
-      sc["tof_poss"] = 3;
-      sc["tof_size"] = fov_d / 0.149896229 / 3;
-      sc["tof_res"] = fov_d / 0.149896229 / 4;
+      // ProjDataInfo::set_tof_mash_factor: "Number of TOF bins should be an odd number" -> 3, 5, ...
+      const int T = tof_bins % 2 ? tof_bins : tof_bins + 1;
+      sc["tof_poss"] = T;
+      sc["tof_size"] = fov_d / 0.149896229 / T;
+      sc["tof_res"] = fov_d / 0.149896229 / (T + 1);
     }
   return sc;
 }
@@ -163,7 +166,7 @@ build_geo(const json& c)
   Geo g;
   const int views = c["views"], m = c["m"], segs = c["segs"];
   const bool tof = c["tof"].get<int>() > 1;
-  g.sc = vg::make_scanner(scanner_spec(2 * views * m, segs + 1, c.value("tilt", false), tof));
+  g.sc = vg::make_scanner(scanner_spec(2 * views * m, segs + 1, c.value("tilt", false), c["tof"].get<int>()));
   if (g.sc->check_consistency() != Succeeded::yes)
     error("scanner inconsistent");
   g.full_pdi.reset(
@@ -357,8 +360,17 @@ check_config(const json& c)
 
   // the objective function whose balancedness predicate is compared with the harness's own count
   PoissonLogLikelihoodWithLinearModelForMeanAndProjData<Target> obj;
-  const int pm = proc_max >= 0 ? proc_max : data_smax;
-  if (symmetric_data)
+  // Asymmetric segment range of the data (audit): the objective function processes -pm..pm, legal as soon as these
+  // segments exist (set_up only rejects max_segment_num_to_process > max segment of the data) -> pm <= min(-smin, smax)
+  const bool have_obj = data_smin <= 0 && data_smax >= 0;
+  const int pm = symmetric_data ? (proc_max >= 0 ? proc_max : data_smax)
+                                : std::min(proc_max >= 0 ? proc_max : data_smax, std::min(-data_smin, data_smax));
+  // the harness's own statement of the sizes of the data (not read back from the ProjDataInfo under test)
+  if (c.value("subset_by_view", 0) == 0)
+    VF_CHECK(views == c["views"].get<int>(), "the data have ", views, " views, the Case says ", c["views"].get<int>());
+  VF_CHECK(pdi.get_num_tof_poss() == (c["tof"].get<int>() > 1 ? c["tof"].get<int>() | 1 : 1), "the data have ", pdi.get_num_tof_poss(),
+           " TOF bins, the Case says ", c["tof"].get<int>());
+  if (have_obj)
     {
       // (segments -pm..pm are what the objective function processes: it needs them to exist)
       shared_ptr<ProjData> pd(new ProjDataInMemory(pet_exam_info(), g.pdi, false));
@@ -385,10 +397,10 @@ check_config(const json& c)
             return Result::fail("directly constructed symmetries: " + r.msg);
           VF_CHECK(own == own2, "per-subset counts differ between the projector's and the directly constructed symmetries object, num_subsets=", N);
         }
-      if (symmetric_data)
+      if (have_obj)
         {
           // the objective function restricts to -max_segment_num_to_process..+max_segment_num_to_process
-          if (pm != data_smax)
+          if (pm != data_smax || !symmetric_data)
             {
               r = check_partition(pdi, sym, -pm, pm, N, own, max_group);
               if (r.failed())
@@ -429,6 +441,12 @@ check_config(const json& c)
     stats().cls("ProjDataInfoSubsetByView");
   if (!symmetric_data)
     stats().cls("asymmetric segment range");
+  if (!symmetric_data && have_obj)
+    stats().cls("asymmetric segment range: balancedness predicate decided on -pm..pm");
+  if (-data_smin > data_smax)
+    stats().cls("asymmetric segment range: more negative than positive segments");
+  if (pdi.get_num_tof_poss() > 3)
+    stats().cls("TOF: 5 TOF bins");
   if (proc_max >= 0 && proc_max < data_smax)
     stats().cls("max_segment_num_to_process < max segment");
 
@@ -1362,7 +1380,15 @@ add_operational_space(std::vector<json>& out, int tier)
           c["seg_lo"] = -1;
           c["seg_hi"] = 2;
           out.push_back(c);
+          if (sym != 3)
+            { // (audit) mirrored: more negative than positive segments
+              c["seg_lo"] = -2;
+              c["seg_hi"] = 1;
+              out.push_back(c);
+            }
         }
+      if (views <= 6)
+        out.push_back(op_case("opcount", views, 1, 5, 7)); // (audit) 5 TOF bins
     }
   // larger view counts with a sample of num_subsets
   if (!C06_SANITIZED)
@@ -1501,6 +1527,22 @@ space(int tier)
       c["seg_lo"] = 0;
       c["seg_hi"] = 1;
       out.push_back(c);
+      // (audit) the MIRRORED asymmetric ranges: more negative than positive segments
+      for (int sym : { 0, 3, 5 })
+        {
+          c = cfg_case(views, 1, 2, -1, 1, sym);
+          c["seg_lo"] = -2;
+          c["seg_hi"] = 1;
+          out.push_back(c);
+        }
+      c = cfg_case(views, 1, 2, -1, 1, 1);
+      c["seg_lo"] = -1;
+      c["seg_hi"] = 0;
+      out.push_back(c);
+      // (audit) 5 TOF bins (the enumeration above has 1 and 3)
+      if (views <= 24)
+        for (int sym : { 0, 7 })
+          out.push_back(cfg_case(views, 1, 1, -1, 5, sym));
       // (not in the sanitizer build: set_up of the objective function reads the never-initialised member
       //  distributed_cache_enabled, which UBSan reports -- a C05 matter, see work/notes/C05_findings.md)
       if (views <= 16 && !C06_SANITIZED)
@@ -1561,6 +1603,14 @@ enumerate(uint64_t idx, int tier, json& c)
   return true;
 }
 
+// Known finding (audit of the generator domains): data whose segment range contains a NEGATIVE segment -s without its positive
+// counterpart +s (e.g. reduce_segment_range(-1, 0)) are accepted by ProjDataInfo, by the symmetries constructor and by set_up
+// of the ray-tracing projector pair, but DataSymmetriesForBins_PET_CartesianGrid::find_sym_op_general_bin / find_sym_op_bin0
+// call find_transform_z(abs(segment_num), ...), which indexes the per-segment tables deltas / num_planes_per_axial_pos /
+// axial_pos_to_z_offset (allocated min_segment..max_segment of the DATA) at +s: out-of-range read (assertion in
+// VectorWithOffset::operator[] in debug builds).  Seen with every symmetry switch off as well.
+const char* const SIG_NEGSEG = "C06:raytracing-pair:negative-segment-without-positive-counterpart:table-index";
+
 // generated cases beyond the enumerated bounds (larger view counts, more subsets, longer runs)
 json
 gen(Src& s, int size)
@@ -1574,7 +1624,7 @@ gen(Src& s, int size)
       const int views = int(s.range(2, C06_SANITIZED ? (real ? 6 : 12) : (real ? 16 : obj ? 32 : 40 + size)));
       const int segs = int(s.range(0, real ? 1 : 2));
       int sym = int(s.range(real ? 1 : 0, 7));
-      const int tof = s.chance(1, 4) ? 3 : 1; // (fbp + TOF: known finding, excluded by known_signature)
+      const int tof = s.chance(1, 4) ? (s.chance(1, 3) ? 5 : 3) : 1; // (fbp + TOF: known finding, excluded by known_signature)
       c = cfg_case(views, int(s.pick(std::vector<int>{ 1, 1, 2 })), segs, -1, tof, sym);
       c["kind"] = real ? "opreal" : fbp ? "fbp" : obj ? "opobj" : "opcount";
       if (fbp)
@@ -1613,6 +1663,20 @@ gen(Src& s, int size)
         { // asymmetric range (only without swap-segment: assertion in find_basic_vs_nums_in_subset)
           c["seg_lo"] = -int(s.range(0, segs - 1));
           c["seg_hi"] = segs;
+          const bool mirror = s.coin();
+          // known finding C06:raytracing-pair:negative-segment-without-positive-counterpart (see known_signature): the real
+          // ray-tracing pair is not given such data; the counting projectors and the configuration cases are
+          const char* e = std::getenv("VERIF_NO_EXCLUDE");
+          if (mirror && real && !(e && *e))
+            {
+              stats().excluded_known++;
+              stats().count(std::string("excluded:") + SIG_NEGSEG);
+            }
+          else if (mirror)
+            { // mirrored: more negative than positive segments
+              c["seg_hi"] = -c["seg_lo"].get<int>();
+              c["seg_lo"] = -segs;
+            }
         }
       return c;
     }
@@ -1639,7 +1703,7 @@ gen(Src& s, int size)
   if (which == 3 || which == 4)
     { // one symmetries object / objective function asked in generated order
       const int views = int(s.range(2, C06_SANITIZED ? 24 : 40 + size));
-      c = cfg_case(views, int(s.pick(std::vector<int>{ 1, 1, 2 })), int(s.range(0, 2)), -1, s.chance(1, 4) ? 3 : 1, int(s.range(0, 7)));
+      c = cfg_case(views, int(s.pick(std::vector<int>{ 1, 1, 2 })), int(s.range(0, 2)), -1, s.chance(1, 4) ? (s.chance(1, 3) ? 5 : 3) : 1, int(s.range(0, 7)));
       c["kind"] = "cfgops";
       c["sym_alt"] = int(s.range(0, 7));
       if (s.chance(1, 8))
@@ -1657,6 +1721,11 @@ gen(Src& s, int size)
         { // asymmetric range (only without swap-segment: assertion in find_basic_vs_nums_in_subset)
           c["seg_lo"] = -int(s.range(0, segs - 1));
           c["seg_hi"] = segs;
+          if (s.coin())
+            { // mirrored: more negative than positive segments
+              c["seg_hi"] = -c["seg_lo"].get<int>();
+              c["seg_lo"] = -segs;
+            }
         }
       json ops = json::array();
       const int n = int(s.range(4, 24));
@@ -1680,7 +1749,7 @@ gen(Src& s, int size)
       return c;
     }
   const int views = int(s.range(2, C06_SANITIZED ? 40 : 97 + size * 2)); // (the sanitizer build is ~20x slower)
-  c = cfg_case(views, int(s.pick(std::vector<int>{ 1, 1, 2, 3 })), int(s.range(0, 3)), -1, s.chance(1, 4) ? 3 : 1, int(s.range(0, 7)));
+  c = cfg_case(views, int(s.pick(std::vector<int>{ 1, 1, 2, 3 })), int(s.range(0, 3)), -1, s.chance(1, 4) ? (s.chance(1, 3) ? 5 : 3) : 1, int(s.range(0, 7)));
   const int segs = c["segs"];
   if (segs > 0 && s.chance(1, 3))
     c["proc_max"] = int(s.range(0, segs));
@@ -1699,6 +1768,11 @@ gen(Src& s, int size)
     { // asymmetric range (only without swap-segment, see above)
       c["seg_lo"] = -int(s.range(0, segs));
       c["seg_hi"] = segs;
+      if (s.coin())
+        { // mirrored: more negative than positive segments
+          c["seg_hi"] = -c["seg_lo"].get<int>();
+          c["seg_lo"] = -segs;
+        }
     }
   // a random selection of subset numbers keeps big view counts cheap
   if (views > 120)
@@ -1740,6 +1814,9 @@ known_signature(const json& c)
   // FBP2DReconstruction accepts TOF data and reconstructs only TOF bin 0 of every view
   if (c["kind"] == "fbp" && c.value("tof", 1) > 1)
     return "C06:FBP2D:TOF-data:only-TOF-bin-0-processed";
+  // the real ray-tracing pair on data with a negative segment whose positive counterpart is missing
+  if (c["kind"] == "opreal" && c.contains("seg_lo") && c.contains("seg_hi") && -c["seg_lo"].get<int>() > c["seg_hi"].get<int>())
+    return SIG_NEGSEG;
   return "";
 }
 
